@@ -157,10 +157,10 @@ MANIFEST_TEXT = {
         note="Step-count bound instead of wall time; deadline counted from the library's first clock reading in the call.",
         technique=TECH,
     ),
-    "C05": dict(text="All 125 redirection combinations are enumerated every run; what the child holds at fds 0/1/2 is compared by identity of the open file description (same pipe, same description, shared offset) - something text-arrives-somewhere tests cannot see; invalid combinations must be refused without a fork; any close/dup2/F_SETFD on the parent's fds 0-2 (also in thread-local destructors at thread exit) is flagged.", design_ref="DESIGN.md §5 C05", note="Spawns from several short-lived threads are covered by the thread variant listed in DESIGN §5 when enabled.", technique=TECH),
+    "C05": dict(text="All 125 redirection combinations are enumerated every run; what the child holds at fds 0/1/2 is compared by identity of the open file description (same pipe, same description, shared offset) - something text-arrives-somewhere tests cannot see; invalid combinations must be refused without a fork; any close/dup2/F_SETFD on the parent's fds 0-2 (also in thread-local destructors at thread exit) is flagged.", design_ref="DESIGN.md §5 C05", note="One run in four spawns from 1-3 short-lived threads that exit afterwards; one run in six starts the parent with a subset of its descriptors 0-2 closed.", technique=TECH),
     "C06": dict(text="The library's own marshalling runs in a really forked child; argv/envp/cwd/ids/pgid are read at the simulated exec boundary and compared with a model, including the credential rules that make the setuid/setgid order observable and NUL rejection.", design_ref="DESIGN.md §5 C06", note="Mostly a for-all-inputs property; the simulator contributes the observation point and credential semantics (stated in evidence). Windows format_env_block not covered.", technique=TECH),
     "C07": dict(text="Every injection point (k-th descriptor allocation, k-th fcntl, fork, each child-side step, each exec candidate) is crossed with configurations and errno values; after each failed launch the process table, the parent's descriptor table and the returned errno are checked; Ok is accepted only if the simulated child has completed exec at the instant of return.", design_ref="DESIGN.md §5 C07", note="Enumeration is over ordinals up to fixed bounds (10 allocations, 12 fcntl calls, 6 child steps, 4 exec candidates) per configuration; configurations are sampled.", technique=TECH),
-    "C08": dict(text="Descriptor tables of every child at exec are audited against the rule 'a library pipe end may only appear at the child's own fds 0/1/2', over histories with live siblings and over pipelines.", design_ref="DESIGN.md §5 C08", note="The multi-threaded window between pipe() and fcntl() needs the thread variant (DESIGN §5).", technique=TECH),
+    "C08": dict(text="Descriptor tables of every child at exec are audited against the rule 'a library pipe end may only appear at the child's own fds 0/1/2', over histories with live siblings, over pipelines, and over spawns issued concurrently from several threads; end-of-file propagation is checked as a consequence.", design_ref="DESIGN.md §5 C08", note="One run in four spawns from 2-3 parent threads under the seeded scheduler (every interposed call is a switch point), which is what reaches the window between creating a pipe and forking; the consequences (end-of-file reaching either side whoever else is running) are checked directly as well.", technique=TECH),
     "C09": dict(text="Random query/signal histories interleaved by the scheduler with the child's exit, foreign reaping and pid reuse; every reported status is compared with the kernel's truth at that instant and with earlier reports; the waitpid/kill log after the first report must be empty.", design_ref="DESIGN.md §5 C09", note="As C01.", technique=TECH),
     "C10": dict(text="Audit of the kill() calls actually issued, per API call, against what the Popen had observed at that time; bystander processes with recycled pids make a stray signal visible.", design_ref="DESIGN.md §5 C10", note="As C09.", technique=TECH),
     "C11": dict(text="Virtual clock with injected timer lateness and stalls: early/late return of wait_timeout is judged against the deadline plus exactly the injected delay; poll must not block; the back-off loop must sleep between two status checks.", design_ref="DESIGN.md §5 C11", note="Timeouts of weeks are explored only when the child exits early, otherwise bounded (see evidence assumptions).", technique=TECH),
